@@ -1,19 +1,60 @@
 //go:build verif
 
-// Contracts for the deductive verifier in /verif (kvc). Comment-only: this file adds no code.
+// Draft contracts (C19) for the deductive verifier in /verif (kvc). Comment-only: this file adds no code.
 package cloudprovider
 
+// ---- C19, price side: instance types are ranked by their cheapest compatible available offering
+// and truncation keeps a prefix of that ranking ----
+//
+// Vocabulary (float64 is real):
+//   compat(reqs, o)        reqs.IsCompatible(o.Requirements, AllowUndefinedWellKnownLabels). UNINTERPRETED
+//                          here: the C12 contract of IsCompatible gives its result only as
+//                          `@(Requirements).Compatible == nil`, which at a call site is a fresh
+//                          unknown per call, so two calls on the same operands are not known to agree.
+//                          The exact clauses that need "IsCompatible is a function of its operands"
+//                          are in ../../full/ (they discharge once that is available).
+//   elig(reqs, o)          o is Available and compatible with reqs
+//   isMinUpTo(ofs,n,reqs,p) p = min(MaxFloat64, min{ofs[k].Price | k < n, elig(reqs, ofs[k])}): p is a
+//                          lower bound of the eligible prices, at most the sentinel, and either the
+//                          sentinel or attained by an eligible offering
+//   isMinPrice(it,reqs,p)  p is the min price of instance type it under reqs ("minPrice(it, reqs) = p");
+//                          unique by lemma minPriceUnique
+//   leqPrice(x,y,reqs)     minPrice(x, reqs) <= minPrice(y, reqs), written without naming the minima
+//                          (so that it needs no witness and survives heap changes); lemma
+//                          leqPriceMeaning ties it to isMinPrice
+//   lessPrice(x,y,reqs)    minPrice(x) < minPrice(y): the order the comparator is meant to implement
 //@ pure compat(reqs scheduling.Requirements, o *Offering) bool
 //@ pure elig(reqs scheduling.Requirements, o *Offering) bool = o.Available && compat(reqs, o)
 //@ pure isMinUpTo(ofs Offerings, n int, reqs scheduling.Requirements, p real) bool = p <= math.MaxFloat64 && (forall k int {ofs[k]} :: (0 <= k && k < n && elig(reqs, ofs[k])) ==> p <= ofs[k].Price) && (p == math.MaxFloat64 || (exists k int {ofs[k]} :: 0 <= k && k < n && elig(reqs, ofs[k]) && ofs[k].Price == p))
 //@ pure isMinPrice(it *InstanceType, reqs scheduling.Requirements, p real) bool = isMinUpTo(it.Offerings, len(it.Offerings), reqs, p)
 //@ pure leqPrice(x *InstanceType, y *InstanceType, reqs scheduling.Requirements) bool = forall k int {y.Offerings[k]} :: (0 <= k && k < len(y.Offerings) && elig(reqs, y.Offerings[k])) ==> (math.MaxFloat64 <= y.Offerings[k].Price || (exists m int {x.Offerings[m]} :: 0 <= m && m < len(x.Offerings) && elig(reqs, x.Offerings[m]) && x.Offerings[m].Price <= y.Offerings[k].Price))
-//@ pure availAttained(ofs Offerings, n int, p real) bool = p <= math.MaxFloat64 && (p == math.MaxFloat64 || (exists k int {ofs[k]} :: 0 <= k && k < n && ofs[k].Available && ofs[k].Price == p))
-//@ pure offsOK(it *InstanceType) bool = it != nil && (forall k int {it.Offerings[k]} :: 0 <= k && k < len(it.Offerings) ==> (it.Offerings[k] != nil && scheduling.rsInv(it.Offerings[k].Requirements)))
+//@ pure lessPrice(x *InstanceType, y *InstanceType, reqs scheduling.Requirements) bool = !leqPrice(y, x, reqs)
+//@ pure sortedByPrice(s InstanceTypes, reqs scheduling.Requirements) bool = forall a int, b int {s[a], s[b]} :: (0 <= a && a < b && b < len(s)) ==> leqPrice(s[a], s[b], reqs)
 
+// the minimum is unique, leqPrice means "<= on the minima"
 //@ lemma minPriceUnique [C19]: forall it *InstanceType, reqs scheduling.Requirements, p real, q real :: (isMinPrice(it, reqs, p) && isMinPrice(it, reqs, q)) ==> p == q
 //@ lemma leqPriceMeaning [C19]: forall x *InstanceType, y *InstanceType, reqs scheduling.Requirements, p real, q real :: (isMinPrice(x, reqs, p) && isMinPrice(y, reqs, q)) ==> (leqPrice(x, y, reqs) <==> p <= q)
+// lessPrice is a strict weak order on instance types that have a min price (all do: the fold computes it)
+//@ lemma priceOrderIrreflexive [C19]: forall x *InstanceType, reqs scheduling.Requirements, p real :: isMinPrice(x, reqs, p) ==> !lessPrice(x, x, reqs)
+//@ lemma priceOrderAsymmetric [C19]: forall x *InstanceType, y *InstanceType, reqs scheduling.Requirements, p real, q real :: (isMinPrice(x, reqs, p) && isMinPrice(y, reqs, q) && lessPrice(x, y, reqs)) ==> !lessPrice(y, x, reqs)
+//@ lemma priceOrderTransitive [C19]: forall x *InstanceType, y *InstanceType, z *InstanceType, reqs scheduling.Requirements, p real, q real, r real :: (isMinPrice(x, reqs, p) && isMinPrice(y, reqs, q) && isMinPrice(z, reqs, r) && lessPrice(x, y, reqs) && lessPrice(y, z, reqs)) ==> lessPrice(x, z, reqs)
+//@ lemma priceOrderTiesTransitive [C19]: forall x *InstanceType, y *InstanceType, z *InstanceType, reqs scheduling.Requirements, p real, q real, r real :: (isMinPrice(x, reqs, p) && isMinPrice(y, reqs, q) && isMinPrice(z, reqs, r) && !lessPrice(x, y, reqs) && !lessPrice(y, x, reqs) && !lessPrice(y, z, reqs) && !lessPrice(z, y, reqs)) ==> (!lessPrice(x, z, reqs) && !lessPrice(z, x, reqs))
+// cutting a price-sorted list at n: every kept type is at most as dear as every dropped one
+//@ lemma truncationKeepsCheapest [C19]: forall s InstanceTypes, reqs scheduling.Requirements, n int, k int, d int :: (sortedByPrice(s, reqs) && 0 <= k && k < n && n <= d && d < len(s)) ==> leqPrice(s[k], s[d], reqs)
 
+// offsOK: representation invariant of a catalog entry as far as the comparator needs it (the C12
+// contract of IsCompatible requires rsInv of both operands).
+//@ pure offsOK(it *InstanceType) bool = it != nil && (forall k int {it.Offerings[k]} :: 0 <= k && k < len(it.Offerings) ==> (it.Offerings[k] != nil && scheduling.rsInv(it.Offerings[k].Requirements)))
+// availAttained: the compat-independent part of isMinUpTo (sentinel bound; attained by an AVAILABLE offering).
+//@ pure availAttained(ofs Offerings, n int, p real) bool = p <= math.MaxFloat64 && (p == math.MaxFloat64 || (exists k int {ofs[k]} :: 0 <= k && k < n && ofs[k].Available && ofs[k].Price == p))
+
+// The comparator of OrderByPrice. ACTIVE part (independent of what IsCompatible returns): each fold
+// starts from the sentinel, only ever takes the price of an AVAILABLE offering of its own instance
+// type, asks IsCompatible with the scheduler's requirements as receiver and that offering's requirements
+// as argument (the relation is not symmetric) and only for available offerings, and the result is
+// `first < second`. The exact clauses ([iMin], [jMin], [exact] result == lessPrice(its[i], its[j], reqs))
+// are in ../../full/. The code has NO name tie-break: equal min prices compare as equal in both directions.
+// (`of` in the site clauses is the range variable of the loop the call is in.)
 //@ func (InstanceTypes).OrderByPrice closure@sort.Slice
 //@   prop C19
 //@   requires 0 <= i && i < len(its) && 0 <= j && j < len(its)
@@ -27,6 +68,12 @@ package cloudprovider
 //@   loop 1 invariant availAttained(its[i].Offerings, $i + 1, iPrice)
 //@   loop 2 invariant availAttained(its[j].Offerings, $i + 1, jPrice)
 
+// Truncate: what is cut is the list ordered by price under the SAME requirements, the cut starts at
+// index 0 and is maxItems long, and on success exactly that prefix is returned. With lemma
+// truncationKeepsCheapest and "OrderByPrice returns its receiver sorted by lessPrice" (not decidable
+// without a sort.Slice stub; lo.Slice has no stub either, its result is an arbitrary value for the
+// stock engine) this is "no kept type is dearer than a dropped one". The closed form ([isPrefix],
+// [cheapest]) is in ../../full/.
 //@ func (InstanceTypes).Truncate
 //@   prop C19
 //@   modifies *
